@@ -650,3 +650,69 @@ Theorem bridge_B1_from_value (p P : R) : 0 < p -> J0R p = sqrt (PI / p) ->
   forall f : list R,
     Gint (fun x => peval f (x - P) * exp (- p * (x - P) ^ 2)) / sqrt (PI / p) = E RKd (vR p) f.
 Proof. intros Hp <- f. now apply gauss_bridge_normalised. Qed.
+
+(* ------------------------------------------------------------------ *)
+(* scaling: the trusted value for every p follows from the single number  int e^{-x^2} = sqrt PI *)
+Lemma gint_scale (g : R -> R) (l k : R) : 0 < k -> gint g l -> gint (fun x => g (k * x)) (l / k).
+Proof.
+  intros Hk. rewrite !gint_spelled_out. intros H eps.
+  assert (He : 0 < eps * k) by (apply Rmult_lt_0_compat; [apply cond_pos | exact Hk]).
+  destruct (H (mkposreal _ He)) as [M HM]. cbn [pos] in HM.
+  exists (M / k). intros a b Ha Hb.
+  assert (Hik : 0 < / k) by now apply Rinv_0_lt_compat.
+  destruct (HM (k * a) (k * b)) as [y [Hy Hd]].
+  { apply Rmult_lt_reg_r with (/ k); [exact Hik|].
+    replace (k * a * / k) with a by (field; lra). unfold Rdiv in Ha. lra. }
+  { apply Rmult_lt_reg_r with (/ k); [exact Hik|].
+    replace (k * b * / k) with b by (field; lra). unfold Rdiv in Hb. lra. }
+  exists (/ k * y). split.
+  - apply (is_RInt_ext (fun x => scal (/ k) (scal k (g (k * x + 0))))).
+    + intros x _. unfold scal; cbn. unfold mult; cbn. rewrite Rplus_0_r. field. lra.
+    + apply (is_RInt_scal (fun x => scal k (g (k * x + 0))) a b (/ k) y).
+      apply (is_RInt_comp_lin g k 0 a b y). now rewrite !Rplus_0_r.
+  - replace (/ k * y - l / k) with ((y - l) * / k) by (field; lra).
+    rewrite Rabs_mult, (Rabs_pos_eq (/ k)) by lra.
+    apply Rmult_lt_reg_r with k; [exact Hk|]. rewrite Rmult_assoc, Rinv_l by lra. lra.
+Qed.
+
+Theorem gaussian_integral_from_unit (p : R) : 0 < p ->
+  gint (fun x => exp (- x ^ 2)) (sqrt PI) ->
+  gint (fun x => exp (- p * x ^ 2)) (sqrt (PI / p)).
+Proof.
+  intros Hp H1.
+  assert (Hs : 0 < sqrt p) by now apply sqrt_lt_R0.
+  apply (gint_ext (fun x => exp (- (sqrt p * x) ^ 2)) _ (sqrt PI / sqrt p)).
+  - intro x. f_equal. rewrite Rpow_mult_distr. cbn [pow]. rewrite Rmult_1_r, sqrt_sqrt by lra. ring.
+  - rewrite sqrt_div_alt by exact Hp. reflexivity.
+  - exact (gint_scale (fun x => exp (- x ^ 2)) (sqrt PI) (sqrt p) Hs H1).
+Qed.
+
+(* (B1), final form; the hypothesis is the one real-analysis fact left outside Coq *)
+Theorem bridge_B1 (p P : R) : 0 < p ->
+  gint (fun x => exp (- x ^ 2)) (sqrt PI) ->
+  forall f : list R,
+    gint (fun x => peval f (x - P) * exp (- p * (x - P) ^ 2)) (sqrt (PI / p) * E RKd (vR p) f)
+    /\ Gint (fun x => peval f (x - P) * exp (- p * (x - P) ^ 2)) / sqrt (PI / p) = E RKd (vR p) f.
+Proof.
+  intros Hp H1. apply bridge_B1_modulo_gaussian_integral; [exact Hp|].
+  now apply gaussian_integral_from_unit.
+Qed.
+
+(* the hypotheses of the conditional theorems are satisfiable *)
+Example gauss_moments_hypothesis_satisfiable :
+  exists p J0, 0 < p /\ gint (fun x => exp (- p * x ^ 2)) J0.
+Proof. exists 1. destruct (gaussian_integral_exists 1 Rlt_0_1) as [J0 H]. exists J0. split; [lra|exact H]. Qed.
+
+Example gauss_moments_values_hypothesis_satisfiable :
+  exists p (J : nat -> R), 0 < p /\ forall n, gint (gw p n) (J n).
+Proof.
+  exists 1. destruct (gaussian_integral_exists 1 Rlt_0_1) as [J0 H].
+  exists (fun n => J0 * momR 1 n). split; [lra|]. apply gauss_moments; [lra | exact H].
+Qed.
+
+(* a concrete instance: int x^2 e^{-p x^2} / int e^{-p x^2} = 1/(2p), int x^4 ... = 3/(4 p^2) *)
+Example second_moment p : 0 < p -> Gint (gw p 2) / J0R p = / (2 * p).
+Proof.
+  intro Hp. rewrite (Gint_correct _ _ (gauss_moments p _ Hp (J0R_correct p Hp) 2)).
+  rewrite momR_SS, momR_0. unfold vR. cbn [INR]. field. split; [lra|]. apply Rgt_not_eq. now apply J0R_pos.
+Qed.
